@@ -39,9 +39,9 @@ LEVEL_NOTE = ('Trusted: pvmon/gen/formulas.py and pvmon/gen/mixtures.py (known d
               'covalent_radius attribute (checked against the embedded table by C20), periodictable.constants.electron_mass.')
 ASSUMPTIONS = ['model masses: tabulated neutral mass less charge * electron_mass (pvmon/ref/masses.py)',
                'the density of an ion is that of its element or isotope; of an isotope, the element density scaled by the mass ratio',
-               'substitutions have source != target (the property speaks of substituting one atom for another); a result '
-               'that collapses to a single atom while the density was unknown is not generated (the one-atom default of '
-               'the same property would then apply)',
+               'substitutions have source != target (the property speaks of substituting one atom for another); a formula '
+               'that starts as a single atom with a tabulated density is never "unknown" (it carries the one-atom default '
+               'from construction); a result that is left with one kind of atom keeps an unknown density unknown',
                'volume(): documented default packing factor is hcp; lattice defaults b=c=a and 90 degrees are used only '
                'when no angle is given; cells are sampled with Gram determinant >= 0.01',
                'tolerance 1e-12 relative (DESIGN 3.7)',
@@ -132,7 +132,7 @@ def _post_substitution(compound, source, target, portion, result):
     if abs(new.get(target, 0) - want_t) > REL * max(abs(want_t), 1e-300) and new.get(target, 0) != want_t:
         return 'target count %r, expected %r' % (new.get(target, 0), want_t)
     if compound.density is None:
-        if result.density is not None and len([a for a, c in new.items()]) != 1:
+        if result.density is not None:
             return 'density %r from an unknown density' % (result.density,)
     else:
         want = compound.density * result.mass / compound.mass
@@ -241,6 +241,7 @@ def setup(ctx):
         ctx.require('natural.nontrivial', 1, 'formulas whose natural mass differs from their mass')
         ctx.require('natural.isotope-ion', 1, 'formulas containing isotope ions')
         ctx.require('replace.unknown-density', 1, 'substitutions on formulas of unknown density')
+        ctx.require('replace.unknown-density.one-atom-left', 1, 'a substitution on an unknown density that leaves one kind of atom')
         ctx.require('replace.partial', 1, 'partial substitutions')
         ctx.require('replace.target-present', 1, 'substitutions whose target is already in the formula')
         ctx.require('history.ratio-changed-in-place', 1, 'conversions after an in-place change of the isotopic content')
@@ -496,6 +497,9 @@ def check_replace(ctx, case):
     portion = case['portion']
     if rho is None:
         ctx.count('replace.unknown-density')
+        left = (set(den) - ({src} if (present and portion == 1) else set())) | ({tuple(case['target'])} if present else set())
+        if len(left) == 1 and len(den) > 1:
+            ctx.count('replace.unknown-density.one-atom-left')
     if 0 < portion < 1:
         ctx.count('replace.partial')
     if tuple(case['target']) in den:
@@ -934,11 +938,15 @@ def generate(ctx):
             while tgt is None or tgt == src:
                 tgt = rng.choice([(1, 2, 0), (1, 0, 0), (8, 18, 0), (26, 0, 2), _atom_key(rng, T), _atom_key(rng, T)])
             portion = rng.choice([0, 1, 1, rng.random(), rng.random(), 10 ** rng.uniform(-9, 0), 1 - 10 ** rng.uniform(-9, 0)])
+            if unknown and len(keys) == 2 and rng.random() < 0.5:
+                # all of one atom replaced by the other one: a single kind of atom is left - and the density, which
+                # was unknown, stays unknown (the one-atom default belongs to construction, not to substitution)
+                src, tgt = rng.sample(keys, 2)
+                present, portion = True, 1
             if unknown:
-                result_keys = (set(keys) - ({src} if (present and portion == 1) else set())) | ({tgt} if present else set())
                 default_known = len(den) == 1 and next(iter(den))[0] in _s['known']
-                if default_known or len(result_keys) == 1:
-                    unknown = False     # one-atom formulas carry a default density (see ASSUMPTIONS)
+                if default_known:
+                    unknown = False     # a one-atom formula carries its atom's density from the start (see ASSUMPTIONS)
             case.update({'rho': None if unknown else decimal_text(rng, log_uniform(rng, -3, 1.4)),
                          'source': list(src), 'target': list(tgt), 'portion': portion,
                          'omit_portion': rng.random() < 0.5})
